@@ -187,7 +187,7 @@ func (m *histMachine) rules(c *ev.Collector, prop string, judge func(rt *rapid.T
 func runHistories(t *testing.T, prop string, tree bool) {
 	c := ev.For(prop)
 	defer c.Done()
-	rapid.Check(t, func(rt *rapid.T) {
+	checkRapid(t, c, func(rt *rapid.T) {
 		m := newHistMachine(rt)
 		steps := 0
 		judge := func(rt *rapid.T, kind string, msg util.Message, want *spec.Node, hist []string) {
